@@ -78,6 +78,15 @@ static void run_grid(int d, const GridSpec& gs, int hist, const TimeCfg& tc, boo
     double g1 = s.GetExpectationValue(mkvec(d, op), ir, ix);
     maxstat("node_err/tol", std::fabs(g1 - want) / tol);
     if (!(std::fabs(g1 - want) <= tol)) violation("GetExpectationValue(op,irho,ix):not-schroedinger-trace:d=" + std::to_string(d), ctx + ",\"got\":" + jnum(g1) + "}");
+    { // the operator passed as a temporary that views the caller's own array, and as a moved-from view: the array is read only
+      std::vector<double> arr = op, arr2 = op; std::vector<bool> av(np, true);
+      double h1 = s.GetExpectationValue(SU_vector((unsigned)d, arr.data()), ir, ix), h2 = s.GetExpectationValue(SU_vector((unsigned)d, arr.data()), ir, ix, 1e300, av);
+      SU_vector view((unsigned)d, arr2.data()); double h3 = s.GetExpectationValue(std::move(view), ir, ix);
+      double h4 = s.GetExpectationValueD(SU_vector((unsigned)d, arr.data()), ir, grid[ix]);
+      count("evaluations");
+      if (!(arr == op) || !(arr2 == op) || !(std::fabs(h1 - want) <= tol) || !(std::fabs(h2 - want) <= tol) || !(std::fabs(h3 - want) <= tol) || !(std::fabs(h4 - want) <= tol))
+        violation("GetExpectationValue:operator-given-as-view-of-caller-array:d=" + std::to_string(d), ctx + ",\"array_unchanged\":" + ((arr == op && arr2 == op) ? "true" : "false") + ",\"got\":" + jarr(std::vector<double>{h1, h2, h3, h4}) + "}");
+    }
     std::vector<bool> avr(np, true);
     double g2 = s.GetExpectationValue(mkvec(d, op), ir, ix, 1e300, avr);
     bool anyavr = false; for (bool b : avr) anyavr = anyavr || b;
